@@ -52,5 +52,5 @@ CHECK = {
     'note': 'Trusted: Lean kernel; Codec law as the only fact about zstd; hand transliteration of the executor/'
             'manager control flow (differentially checked: replies, backend command logs, logical store contents); '
             'consistent cluster metadata; no migration. F10 is reported as KNOWN-FINDING until the patch is applied; '
-            'after applying it the model (handleSingle, sendCmd) must follow and C20_transparent becomes provable.',
+            'after applying it the model (handleSingle, sendCmd, handleMsetnx) must follow and C20_transparent becomes provable.',
 }
